@@ -1,7 +1,7 @@
 #!/bin/bash
 # tools/mutation.sh phase1 <njobs>      dev-only: source-level mutants (bin/gomut) of godi, filtered by the repository's own
 #                                       test suite; survivors (compile + whole suite green) go to /tmp/mutation/survivors/*.diff
-# tools/mutation.sh phase2 <list-file>  survivors x relevant checks (quick tier) in lab M0; results in /tmp/mutation/phase2.log
+# tools/mutation.sh phase2 <list-file> [lab]  survivors x relevant checks (quick tier) in lab <lab> (default M0); results in /tmp/mutation/phase2-<lab>.log
 set -u
 export GOFLAGS=-mod=mod GOPROXY=off
 FILES="scope.go provider.go collection.go descriptor.go module.go errors.go lifetime.go internal/graph/graph.go internal/reflection/analyzer.go internal/reflection/builders.go internal/reflection/helpers.go gin/gin.go echo/echo.go fiber/fiber.go chi/chi.go http/http.go"
@@ -42,23 +42,23 @@ phase1)
   echo PHASE1-DONE > $M/phase1.done
   ;;
 phase2)
-  LIST=$2
-  /verif/tools/lab.sh M0 >/dev/null
+  LIST=$2; LAB=${3:-M0}; LOG=$M/phase2-$LAB.log
+  /verif/tools/lab.sh $LAB >/dev/null
   while read id; do
-    grep -q "^##### $id\$" $M/phase2.log 2>/dev/null && continue
+    grep -q "^##### $id\$" $LOG 2>/dev/null && continue
     f=$(echo $id | sed 's/-[0-9]*$//')
     case $f in
       scope_go|provider_go) checks="C01 C02 C03 C09 C10 C11 C12 C13 C14 C15 C18";;
       collection_go|descriptor_go|module_go|lifetime_go) checks="C01 C04 C05 C06 C07 C08 C15 C17 C18 C20";;
       internal_graph_graph_go) checks="C05 C06 C08 C19";;
       internal_reflection_*) checks="C01 C03 C04 C07 C08 C09 C15";;
-      errors_go) checks="C05 C12 C15";;
+      errors_go) checks="C05 C07 C12 C13 C15 C17 C20";;
       *) checks="C16";;
     esac
     { echo "##### $id"; cat $M/survivors/$id.txt;
-      REPO_DIR=/tmp/lab/M0/repo VERIF_DIR=/tmp/lab/M0/verif /verif/tools/trymutant.sh $M/survivors/$id.diff quick $checks 2>&1 | grep -E "DETECTED|broken|BUILD-FAILED|does not apply" | cut -c1-200;
-      echo "##### end $id"; } >> $M/phase2.log
+      REPO_DIR=/tmp/lab/$LAB/repo VERIF_DIR=/tmp/lab/$LAB/verif /verif/tools/trymutant.sh $M/survivors/$id.diff quick $checks 2>&1 | grep -E "DETECTED|broken|BUILD-FAILED|does not apply" | cut -c1-200;
+      echo "##### end $id"; } >> $LOG
   done < $LIST
-  echo PHASE2-DONE >> $M/phase2.log
+  echo PHASE2-DONE >> $LOG
   ;;
 esac
